@@ -59,7 +59,8 @@ def add_class_spec(eng, name, pyclass, fields, inv=None):
     if slots:
         declared = set(fields)
         if declared != slots:
-            raise Unsupported(f"class spec {name} is stale: slots-not-declared={sorted(slots - declared)} declared-not-slots={sorted(declared - slots)}")
+            # reported when the spec is used (target becomes 'unsupported' -> bounded stand-in), never a silent pass
+            cs.stale = f"class spec {name} is stale: slots-not-declared={sorted(slots - declared)} declared-not-slots={sorted(declared - slots)}"
     return cs
 
 
@@ -133,6 +134,8 @@ def h_fresh(eng, st, ty: Ty, name):
 
 
 def fresh_instance(eng, st, cs: ClassSpec, name):
+    if getattr(cs, "stale", None):
+        raise Unsupported(cs.stale)
     oid = st.alloc(HObj("inst", cs.pyclass, {}))
     o = st.heap[oid]
     for fname, fty in cs.fields.items():
